@@ -1946,7 +1946,15 @@ class _ParametersRestorer:
 
     def __exit__(self, exc_type, exc_value, exc_tb):
         try:
-            self._parameters._update(dict(self._restore, **self._refs))
+            if self._refs:
+                # the previous values first, then the previous links, as one
+                # batch: a reference that has no value at the moment (Skip)
+                # leaves the value it finds alone
+                with _batch_call_watchers(self._parameters.self_or_cls):
+                    self._parameters._update(self._restore)
+                    self._parameters._update(self._refs)
+            else:
+                self._parameters._update(self._restore)
         finally:
             self._restore = {}
 
